@@ -87,6 +87,7 @@ type Local struct {
 	incon     map[string]int64
 	distinctN int64
 	CaseIndex int
+	Ctx       string // what the worker is busy with (reported with a panic inside the case)
 }
 
 func (l *Local) Count(key string, n int64) { l.counters[key] += n }
@@ -283,8 +284,8 @@ func (r *Run) safely(i int, l *Local, fn func(i int, l *Local)) {
 	defer func() {
 		if p := recover(); p != nil {
 			st := string(debug.Stack())
-			l.Violate(Violation{Kind: "panic-in-case", Detail: fmt.Sprintf("panic: %v\n%s", p, trimStack(st)),
-				Witness: Witness{Args: map[string]any{"case_index": i, "seed": r.Seed, "tier": r.Tier}}})
+			l.Violate(Violation{Kind: "panic-in-case", Detail: fmt.Sprintf("panic: %v [%s]\n%s", p, l.Ctx, trimStack(st)),
+				Witness: Witness{Args: map[string]any{"case_index": i, "seed": r.Seed, "tier": r.Tier, "context": l.Ctx}}})
 		}
 	}()
 	fn(i, l)
